@@ -325,12 +325,17 @@ def run(ctx):
     from .. import corners
     from ..core import HarnessError
     si = 8
-    feats = corners.parallel_features(_row_key_feats, range(ctx.seed * 5000, ctx.seed * 5000 + 2600))
-    kept, st = corners.cover(iter(feats), {"k44": 32, "k49": 32, "k84": 32}, 10**6, pairs=False)
+    feats, lo = [], (ctx.seed * 50000) % (2**31 - 10**6)
+    for rnd in range(12):                       # the candidate range grows until every class is covered (coupon collector tail)
+        feats += corners.parallel_features(_row_key_feats, range(lo, lo + (2600 if rnd == 0 else 800)))
+        lo += 2600 if rnd == 0 else 800
+        kept, st = corners.cover(iter(feats), {"k44": 32, "k49": 32, "k84": 32}, 10**6, pairs=False)
+        if st["covered"] == st["classes"]:
+            break
     ctx.extra["intermediate_corner_classes_row_keys"] = st
 
     def wcands():
-        a = ctx.seed * 5000
+        a = (ctx.seed * 50000) % (2**31 - 10**6)
         while True:
             yield a, _acct_text_feats(a)
             a += 1
